@@ -406,13 +406,28 @@ def specStmt (v : String) (sd : SD) (st : SSt) (s : Stmt) (res : String) : Strin
     if res == "na" then ("ok", st)
     else if res == "ok" then ("ok", { st with seqs := st.seqs.push h })
     else (fail "All()" res "ok", st)
+  | .mkseqb h =>
+    -- a stored Backward() sequence is entered as handle + 1000000
+    if res == "na" then ("ok", st)
+    else if res == "ok" then ("ok", { st with seqs := st.seqs.push (h + 1000000) })
+    else (fail "Backward()" res "ok", st)
   | .run q take =>
     match st.seqs[q]? with
     | none => (if res == "na" then "ok" else fail "stored sequence" res "na", st)
-    | some h =>
+    | some hh =>
+      let isBack := decide (hh ≥ 1000000)
+      let h := if isBack then hh - 1000000 else hh
       match hOf h with
       | none => ("FAIL bad handle", st)
       | some sh =>
+        if isBack then
+          if !winFinite sd sh.win then ("ok", st) else
+          let xs := (winAll sd sh.win).reverse.take take.toNat
+          let want := takeStr xs take
+          let top : Int := match upper sd.len sh.win with | some u => u | none => 0
+          (if take ≤ 0 then (if res == "-" then "ok" else fail "re-run of a Backward() sequence obtained earlier" res "-")
+           else if res == want then "ok" else fail "re-run of a Backward() sequence obtained earlier" res want, bump st top)
+        else
         let xs := windowList sd.len sd.digit sh.win take.toNat
         let want := takeStr xs take
         (if res == want then "ok" else fail "re-run of an iterator obtained earlier" res want, bump st (reachOf sh.win xs take))
@@ -622,7 +637,7 @@ def specScriptLine (v desc stmts : String) (raw : String) : String :=
           | s :: ss, r :: rs, st, i =>
             let (verdict, st') := specStmt v sd st s r
             let pureStmt : Bool := v == "v3" && (match s with
-              | .ws _ _ | .we _ _ | .wsig _ _ | .fws _ _ | .mk _ _ | .mkseq _ | .mkf _ _ _ | .exp _ | .zero _ | .cons => true
+              | .ws _ _ | .we _ _ | .wsig _ _ | .fws _ _ | .mk _ _ | .mkseq _ | .mkseqb _ | .mkf _ _ _ | .exp _ | .zero _ | .cons => true
               | .find op _ _ n => (op == "m" || op == "bm" || op == "ffn" || op == "fln") && n ≤ 0
               | _ => false)
             let st' := if pureStmt then st' else { st' with lastCons := none }
